@@ -4,7 +4,7 @@
    earlier history.  The samplers of /repo are tied to this generic machine by the correspondence harness
    (bit-for-bit differential runs + the trace instance) and by the footprint facts regenerated from the
    source on every run (coq/gen/Gen_C14.v), which instantiate C14_resume_footprint / C14_reinitialize. *)
-From CV Require Import Base.Tac Base.Cmp Model.C19_Stats Model.C14_Chain Model.C14_Burn Model.C14_Out Proofs.C14_Chain Proofs.C14_Burn Proofs.C14_Out.
+From CV Require Import Base.Tac Base.Cmp Model.C19_Stats Model.C14_Chain Model.C14_Burn Model.C14_Out Model.C14_Warm Proofs.C14_Chain Proofs.C14_Burn Proofs.C14_Out Proofs.C14_Warm.
 From Coq Require String.
 Import String.StringSyntax.
 
@@ -282,6 +282,69 @@ Theorem C14_resume_refuted :
 Proof. exact hidden_random_refuted. Qed.
 Print Assumptions C14_resume_refuted.
 
+(* checkpoints taken BETWEEN warm-up calls (outside the letter of the property, which speaks of the sampling phase; stated
+   so that what is and is not resumable is exact).  A run now mixes transitions and tune calls.  If warm_resume_ok holds on
+   the extracted facts -- everything step OR tune reads is saved state or never modified by a run -- then loading a state
+   saved at any point into a fresh sampler of the same configuration continues identically through any further mix of
+   transitions and tune calls.  Classes for which the regenerated lemma X_warm states `true`: ULA, MALA, LinearRTO,
+   RegularizedLinearRTO, UGLA, Direct, Conjugate, ConjugateApprox (tune does nothing) and NUTS with a given step_size
+   (excusing _mu, then a function of the configuration, and the step/tune scratch _current_alpha_ratio). *)
+Theorem C14_resume_warmup : forall (V Rnd Tn : Type) (stepS : store V -> Rnd -> store V) (tuneS : store V -> Tn -> store V)
+    (ex scr : list string) (f : facts),
+  warm_resume_ok ex scr f = true ->
+  (forall s r a, ~ In a (run_writes (with_tune scr f)) -> stepS s r a = s a) ->
+  (forall s t a, ~ In a (run_writes (with_tune scr f)) -> tuneS s t a = s a) ->
+  (forall s1 s2 r, agree (sem_reads (with_tune scr f)) s1 s2 -> agree (f_state f) (stepS s1 r) (stepS s2 r)) ->
+  (forall s1 s2 t, agree (sem_reads (with_tune scr f)) s1 s2 -> agree (f_state f) (tuneS s1 t) (tuneS s2 t)) ->
+  forall (orig fresh : store V) (ops1 ops2 : list (Rnd + Tn)) (a : string),
+    (forall b, ~ In b (run_writes (with_tune scr f)) -> fresh b = orig b) -> In a (f_state f) ->
+    runS V (Rnd + Tn) (opS V Rnd Tn stepS tuneS) (load_store (f_state f) (runS V (Rnd + Tn) (opS V Rnd Tn stepS tuneS) orig ops1) fresh) ops2 a =
+    runS V (Rnd + Tn) (opS V Rnd Tn stepS tuneS) (runS V (Rnd + Tn) (opS V Rnd Tn stepS tuneS) orig ops1) ops2 a.
+Proof. intros V Rnd Tn stepS tuneS ex scr f. exact (resume_warmup V Rnd Tn stepS tuneS ex scr f). Qed.
+Print Assumptions C14_resume_warmup.
+
+(* REFUTED outside the guard: a tune that reads the acceptance history (MH, CWMH, PCN read _acc, which is history and
+   not part of the checkpoint) is resumable in the sampling phase (footprint_ok) but not between warm-up calls *)
+Theorem C14_resume_warmup_refuted :
+  footprint_ok [] mh_like = true /\ warm_resume_ok [] [] mh_like = false /\
+  (forall s r a, ~ In a (run_writes (with_tune [] mh_like)) -> mh_like_step s r a = s a) /\
+  (forall s t a, ~ In a (run_writes (with_tune [] mh_like)) -> mh_like_tune s t a = s a) /\
+  exists orig : store Z,
+    let fresh := orig in
+    let ops1 := [inl 1%Z; inl 1%Z] in
+    let ops2 := [inr tt; inl 1%Z] in
+    runS Z (Z + unit) (opS Z Z unit mh_like_step mh_like_tune)
+         (load_store (f_state mh_like) (runS Z (Z + unit) (opS Z Z unit mh_like_step mh_like_tune) orig ops1) fresh) ops2 "current_point"
+    <> runS Z (Z + unit) (opS Z Z unit mh_like_step mh_like_tune)
+         (runS Z (Z + unit) (opS Z Z unit mh_like_step mh_like_tune) orig ops1) ops2 "current_point".
+Proof. exact warm_refuted. Qed.
+Print Assumptions C14_resume_warmup_refuted.
+
+(* batches written by sample(Ns, batch_size = k): when the remainder is flushed the files, read in order, are exactly the
+   chain recorded by that call *)
+Theorem C14_batches : forall (A : Type) (k : nat) (l : list A), (1 <= k)%nat -> concat (batches true k l) = l.
+Proof. intros A k l. exact (concat_chunks k l). Qed.
+Print Assumptions C14_batches.
+
+(* the code that exists does not flush the remainder: every file then holds exactly k samples (so the files hold a
+   multiple of k samples) ... *)
+Theorem C14_batches_partial : forall (A : Type) (k : nat) (l : list A),
+  Forall (fun b => length b = k) (batches false k l) /\
+  length (concat (batches false k l)) = (k * length (batches false k l))%nat.
+Proof. intros A k l. exact (batches_unfinalized k l). Qed.
+Print Assumptions C14_batches_partial.
+
+(* ... and REFUTED as a faithful record whenever k does not divide the number of samples: the last Ns mod k samples are
+   never written -- signature Sampler.sample|batch:remainder-never-flushed *)
+Theorem C14_batches_refuted : concat (batches false 3 [1; 2; 3; 4; 5; 6; 7]%Z) = [1; 2; 3; 4; 5; 6]%Z.
+Proof. exact batches_refuted. Qed.
+Print Assumptions C14_batches_refuted.
+
+(* stateless interface: sample_adapt(N, Nb) is refused (division by the adaptation interval int(0.1 N) = 0) iff N < 10 *)
+Theorem C14_adapt_refusal : forall n : nat, adapt_defined n = true <-> (10 <= n)%nat.
+Proof. exact adapt_defined_iff. Qed.
+Print Assumptions C14_adapt_refusal.
+
 (* non-vacuity: a two-component state whose second component is not saved and not read satisfies the hypotheses
    of C14_resume; a small fact record satisfies footprint_ok and reinit_ok; the trace instance runs *)
 Example C14_example :
@@ -296,6 +359,11 @@ Example C14_example :
                     ["current_point"; "_tmp"] ["_tmp"] [] [] [] ["_acc"] ["scale"] ["initial_point"; "initial_scale"]
                     ["current_point"; "scale"; "_samples"; "_acc"] [] in
    footprint_ok [] f = true /\ reinit_ok f = true /\ tune_ok f = true) /\
+  (let g := mkFacts ["current_point"; "_epsilon"; "_H_bar"] ["_samples"; "_acc"] ["current_point"; "_epsilon"; "target"]
+                    ["current_point"; "_alpha"] [] [] [] [] ["_H_bar"; "_mu"; "_alpha"] ["_H_bar"; "_epsilon"] ["initial_point"]
+                    ["current_point"; "_epsilon"; "_H_bar"; "_mu"; "_samples"; "_acc"] ["_mu"] in
+   warm_resume_ok ["_mu"] ["_alpha"] g = true /\ warm_resume_ok [] ["_alpha"] g = false /\ warm_resume_ok ["_mu"] [] g = false) /\
+  concat (batches true 3 [1; 2; 3; 4; 5; 6; 7]%Z) = [1; 2; 3; 4; 5; 6; 7]%Z /\
   check_exp [100; 101; 102; 103; 104]%Z [TSample 2; TResume; TSample 2] [103; 104]%Z 3
             [(101, 0%nat); (102, 1%nat); (103, 0%nat); (104, 1%nat)]%Z [] = true.
 Proof.
